@@ -14,6 +14,7 @@ import (
 	"errors"
 	"fmt"
 	"github.com/refraction-networking/uquic/verif/refwire"
+	"github.com/refraction-networking/uquic/verif/specgen"
 	"io"
 	"sort"
 	"strings"
@@ -40,7 +41,10 @@ type StreamSpec struct {
 }
 
 type Case struct {
-	Client    string       `json:"client"` // plain | unil | spec:<name>
+	Client string `json:"client"` // plain | unil | spec:<name>
+	// ClientWin (spec clients only): the spec advertises these receive windows [bidi_local, bidi_remote, uni] in KiB
+	// instead of the parrot's (which are equal per type for Chrome and far above every generated transfer)
+	ClientWin []int        `json:"client_win_kb,omitempty"`
 	V2        bool         `json:"v2,omitempty"`
 	RTTms     int          `json:"rtt_ms"`
 	IdleMs    int          `json:"idle_ms"`
@@ -114,6 +118,8 @@ func GenCase(t *rapid.T) Case {
 	c.Client = rapid.SampledFrom([]string{"plain", "plain", "unil", "spec:chrome115", "spec:chrome146"}).Draw(t, "client")
 	if c.Client == "plain" || c.Client == "unil" {
 		c.V2 = rapid.Bool().Draw(t, "v2")
+	} else if rapid.IntRange(0, 2).Draw(t, "cwin") == 0 {
+		c.ClientWin = []int{rapid.SampledFrom([]int{2, 4, 16, 64}).Draw(t, "bl"), rapid.SampledFrom([]int{2, 4, 16, 64}).Draw(t, "br"), rapid.SampledFrom([]int{2, 4, 16, 64}).Draw(t, "uw")}
 	}
 	c.RTTms = rapid.SampledFrom([]int{2, 10, 30, 80, 200}).Draw(t, "rtt")
 	c.IdleMs = rapid.SampledFrom([]int{5000, 10000, 30000}).Draw(t, "idle")
@@ -375,13 +381,18 @@ func runCase(c Case, u *vf.Unit, trace *any) *vf.Verdict {
 		case c.Client == "unil":
 			conn, err = (&quic.UTransport{Transport: ct}).Dial(ctx, sim.ServerAddr, sim.ClientTLS(w.ClientKeys), conf())
 		default:
-			id := specs[strings.TrimPrefix(c.Client, "spec:")]
-			spec, e := quic.QUICID2Spec(id)
+			d := specgen.Desc{Base: strings.TrimPrefix(c.Client, "spec:")}
+			if len(c.ClientWin) == 3 {
+				kb := func(i int) uint64 { return uint64(c.ClientWin[i]) << 10 }
+				d.TPs = []specgen.TPDesc{{K: "idle", N: 30000}, {K: "maxdata", N: 4 << 20}, {K: "bidi_local", N: kb(0)}, {K: "bidi_remote", N: kb(1)},
+					{K: "uni", N: kb(2)}, {K: "streams_bidi", N: 100}, {K: "streams_uni", N: 100}, {K: "iscid"}, {K: "cidlimit", N: 4}, {K: "dgram", N: 65535}}
+			}
+			spec, e := d.Build()
 			if e != nil {
 				dialCh <- dialRes{err: e}
 				return
 			}
-			conn, err = (&quic.UTransport{Transport: ct, QUICSpec: &spec}).Dial(ctx, sim.ServerAddr, sim.ClientTLS(w.ClientKeys), conf())
+			conn, err = (&quic.UTransport{Transport: ct, QUICSpec: spec}).Dial(ctx, sim.ServerAddr, sim.ClientTLS(w.ClientKeys), conf())
 		}
 		dialCh <- dialRes{conn, err, w.Router.Now()}
 	}()
